@@ -308,6 +308,9 @@ func (r *RDir) ReadItem(kind string, id uint64) ([]byte, error) {
 	if err != nil {
 		return nil, err
 	}
+	if data == nil { // the in-memory directory does not keep snapshots
+		return nil, nil
+	}
 	var buf bytes.Buffer
 	_, err = data.WriteTo(&buf)
 	if closer != nil {
